@@ -3,6 +3,7 @@ From PSO Require Import Raft.Types Raft.Node Raft.Net Raft.Obs.
 From PSO Require Import Raft.ProofsReadonlyFrames Raft.ProofsReadonlyB Raft.ProofsReadonlyFinal.
 From PSO Require Import Raft.ProofsFallbackA Raft.ProofsFallbackB Raft.ProofsFallbackC Raft.ProofsFallbackFinal.
 From PSO Require Import Raft.ProofsFallbackSlotsGlobal Raft.ProofsFallbackSuccess Raft.ProofsFallbackSuccessGlobal.
+From PSO Require Import Raft.ProofsFallbackFull.
 Import ListNotations.
 Open Scope N_scope.
 
@@ -125,6 +126,29 @@ Theorem C20_no_success_when_cut : forall c evs0 g0 L n0 K evs,
   steps_sat (success_below L K) c g0 evs.
 Proof. exact C20_no_success_when_cut_thm. Qed.
 Print Assumptions C20_no_success_when_cut.
+
+(* the full statement on runs of the Tier C3 fragment (static membership, no dump file, batch > 1, voters
+   started once with the others of V, no complete snapshot refused for its version): a cut-off leader
+   acknowledges nothing registered beyond the last index its log had at the cut, i.e. nothing submitted to it
+   after the cut.  The two invariants used (commit <= last index; a leader's matchIndex <= its last index)
+   are read off the Tier C3 refinement and the L0 invariants *)
+Theorem C20_no_success_when_cut_full : forall c V evs0 g0 L n0 evs,
+  (0 <= period c)%Z -> tierC3_run c V evs0 ->
+  Forall slot_valid evs0 -> run_trace c ginit evs0 = Some g0 ->
+  aget L (nodes g0) = Some n0 -> role n0 = LEADER -> others n0 <> [] ->
+  Forall ProofsCommitGlobal.ev_ok evs ->
+  steps_sat (cut_quiet L) c g0 evs ->
+  steps_sat (success_below L (last_idx (log n0))) c g0 evs.
+Proof. exact C20_no_success_when_cut_full_thm. Qed.
+Print Assumptions C20_no_success_when_cut_full.
+
+(* the two invariants themselves *)
+Theorem C20_leader_bounds : forall c V evs g L xL,
+  tierC3_run c V evs -> run_trace c ginit evs = Some g -> aget L (nodes g) = Some xL -> role xL = LEADER ->
+  commit xL <= last_idx (log xL) /\
+  forall x m, In x (others xL) -> aget x (match_idx xL) = Some m -> m <= last_idx (log xL).
+Proof. exact C20_leader_bounds_thm. Qed.
+Print Assumptions C20_leader_bounds.
 
 Theorem C20_commit_needs_majority : forall e s,
   commit (nd (tick_leader e s)) = commit (nd s) \/
